@@ -244,7 +244,90 @@ def check_storage(ctx, rule="WIRE-PH"):
         R.violation(rule, STO + "|exits", "expected a 'found' and a 'not found' exit (saw %d / %d)" % (n_some, n_none), function=STO, kind="UNRECOGNISED-SHAPE")
 
 
+PAY = "parse::dlt_payload"
+MSG_TYPES = ("Log", "ApplicationTrace", "NetworkTrace", "Control", "Unknown")
+
+
+def check_payload_dispatch(ctx, rule="WIRE-PD"):
+    """dlt_payload: which payload layout is decoded for which (VERB flag, message type), against the DLT layout:
+    VERB=1 -> NOAR typed arguments (this crate reports a network trace's raw arguments as NetworkTrace slices);
+    VERB=0 and MSTP=control -> service id byte + parameters; VERB=0 otherwise -> 32-bit message id in the message byte
+    order + payload.  For the two non-verbose layouts also where the id and the rest are read from and where the
+    remainder starts (the declared payload length)."""
+    F, R = ctx.facts, ctx.report
+    names = ["input", "verbose", "payload_length", "arg_cnt", "msg_type"]
+    eng, outs = lib_parse.standalone(ctx, PAY, names=names)
+    if eng is None:
+        R.violation("ANCHOR", "missing|" + PAY, "anchor function %s not found" % PAY, kind="ANCHOR-MISSING")
+        return
+    b = F.body(PAY)
+    fl, ln = b["span"]["f"], b["span"]["l"]
+    seen = {}
+    undecided = 0
+    for st, rem, val in ok_exits(eng, outs):
+        verb = None
+        mts = None
+        for k in st.key:
+            if k[0] == "sym" and k[1] == "verbose":
+                verb = k[2]
+            if k[0] == "variant" and k[1] == "msg_type" and k[2] == "None":
+                mts = ("-",)
+            if k[0] == "variant" and k[1] == "msg_type.Some.0":
+                mts = tuple(k[2].split("|"))
+        kind = opt(eng, val)
+        if verb is None or kind is None:
+            undecided += 1
+            continue
+        if mts is None:
+            mts = ("-",) + MSG_TYPES
+        kname, _ = kind
+        fs = val.variants[0][1]
+        for mt in mts:
+            seen.setdefault((verb, mt), set()).add(kname)
+        # layout of the two non-verbose payloads
+        plen = Lin.sym("payload_length")
+        if kname == "NonVerbose":
+            ok = isinstance(fs[0], Int) and fs[0].lin == rd(0, 4, "T") and is_copy_of(fs[1], Lin.const(4)) and fs[1].segs[0][3] == plen.sub(Lin.const(4)) \
+                and isinstance(rem, Slice) and rem.base == "input" and rem.off == plen
+            if ok:
+                R.obligation(rule, "%s|layout|NonVerbose|%s" % (PAY, "/".join(mts)), "discharged", "message id = u32 @0 in message byte order, payload = input[4..payload_length), remainder @payload_length")
+            else:
+                R.violation(rule, "%s|layout|NonVerbose" % PAY, "a non-verbose payload is decoded as id=%s payload=%s remainder=%s; the format prescribes a 32-bit message id at offset 0 in the message byte order, the payload behind it up to the declared payload length, and the next message there" % (
+                    getattr(fs[0], "lin", fs[0]), getattr(fs[1], "segs", fs[1]), rem), function=PAY, file=fl, line=ln)
+        elif kname == "ControlMsg":
+            idv = fs[0]
+            idsrc = repr(idv)
+            ok = ("rd[input@0:1:1]" in idsrc or (isinstance(idv, Enum) and all(not f for _, f in idv.variants))) and is_copy_of(fs[1], Lin.const(1)) and fs[1].segs[0][3] == plen.sub(Lin.const(1)) \
+                and isinstance(rem, Slice) and rem.base == "input" and rem.off == plen
+            if ok:
+                R.obligation(rule, "%s|layout|ControlMsg|%s" % (PAY, repr(st.key[-1])), "discharged", "service id = byte @0, parameters = input[1..payload_length), remainder @payload_length")
+            else:
+                R.violation(rule, "%s|layout|ControlMsg" % PAY, "a control payload is decoded as id=%s parameters=%s remainder=%s; the format prescribes the service id in the first byte, the parameters behind it up to the declared payload length" % (
+                    idsrc[:120], getattr(fs[1], "segs", fs[1]), rem), function=PAY, file=fl, line=ln)
+    n = 0
+    for verb in (True, False):
+        for mt in ("-",) + MSG_TYPES:
+            got = seen.get((verb, mt), set())
+            if verb:
+                want = {"NetworkTrace"} if mt == "NetworkTrace" else {"Verbose"}
+            else:
+                want = {"ControlMsg"} if mt == "Control" else {"NonVerbose"}
+            key = "%s|dispatch|verb=%s|type=%s" % (PAY, int(verb), mt)
+            if not got and undecided:
+                R.notes.append("%s: no accepting exit tracked for VERB=%d type=%s (not decided)" % (rule, verb, mt))
+                continue
+            if got == want:
+                n += 1
+                R.obligation(rule, key, "discharged", "VERB=%d, message type %s -> %s" % (verb, mt, "/".join(sorted(want))))
+                R.instance(rule, "VERB=%d type=%s -> %s" % (verb, mt, "/".join(sorted(want))))
+            else:
+                R.violation(rule, key, "a message with VERB=%d and message type %s is decoded as %s; the DLT layout prescribes %s (the VERB bit alone selects the typed-argument layout; a control message without it carries service id + parameters, any other message id + payload)" % (
+                    verb, "(no extended header)" if mt == "-" else mt, "/".join(sorted(got)) or "nothing (never accepted)", "/".join(sorted(want))), function=PAY, file=fl, line=ln)
+    return n
+
+
 def check_all(ctx, rule="WIRE-PH"):
     check_standard(ctx, rule)
     check_extended(ctx, rule)
     check_storage(ctx, rule)
+    check_payload_dispatch(ctx)
